@@ -28,6 +28,7 @@ META["claim"] += " " + 'Also: two segments cut one byte before the end of a larg
 META["claim"] += " " + "Round 4: a re-established connection (reconnect=1) after a loss at a frame boundary, inside a frame, inside the header, inside a fragmented message (also behind a ping): on_reconnect / on_open once and first, then the new connection's history exactly."
 META["claim"] += " " + 'Round 5: callbacks installed as constructor arguments, as attributes after construction, or from inside on_open; a third of the runs with an idle keepalive configured (ping_interval=5000).'
 META["claim"] += " " + 'Rounds 6-7: exception types x kinds of callable; all runs under the app-level ambient conditions (TLS, callback installation mode, trace, descriptor base, bytearray transport, kernel receive timeout); runs with validation off.'
+META["claim"] += " " + 'Round 8: one callable serving as on_error and as the failing callback; a callback that calls close() and then raises.'
 
 KINDS = ["text", "binary", "frag2", "frag3", "ping", "pong"]
 CBS = ["on_open", "on_message", "on_data", "on_error", "on_ping", "on_pong", "on_close"]
